@@ -567,11 +567,19 @@ def p_cases(tier):
 
 
 # -- layer T: access form x payload kind x holder of the accessed value (temporary / variable / parameter / dead frame) x sink
-T_EXTRA = """fn mkhm(i: int) -> HashMap<string, string> {
+T_EXTRA = """union Result<T, E> { Ok { value: T }, Err { error: E } }
+fn mkhm(i: int) -> HashMap<string, string> {
     let hm: HashMap<string, string> = (map_new)
     (map_put hm "k" (mkstr i))
     (map_put hm (mkstr i) "other")
     return hm
+}
+fn mkresult(i: int) -> Result<string, string> {
+    if (== (% i 2) 0) {
+        return Result.Ok { value: (mkstr i) }
+    } else {
+        return Result.Err { error: (mkstr i) }
+    }
 }
 fn mkcloi(i: int) -> fn(int) -> int {
     let s: string = (mkstr i)
@@ -596,6 +604,9 @@ ACCESS = {
     "match_b":  (None, "U_{k}", "(mku_{k} (+ 1 (* 2 {s})))", None, "k", lambda k, i: k.py(2 * i + 1), ("U",), None),
     "pop":      (None, "array<{T}>", "(p_lit_{k}_3 {s})", "(array_pop {E})", "k", lambda k, i: k.py(i + 2), (), ("var", "param", "frame")),
     "hm_get":   (("str",), "HashMap<string, string>", "(mkhm {s})", "(map_get {E} \"k\")", "k", lambda k, i: k.py(i), (), None),
+    # built-in accessors that take a component out of a union value (UNION_FIELD on the operand itself, no match binding)
+    "unwrap":   (("str",), "Result<string, string>", "(mkresult (* 2 {s}))", "(result_unwrap {E})", "k", lambda k, i: k.py(2 * i), (), None),
+    "unwrap_e": (("str",), "Result<string, string>", "(mkresult (+ 1 (* 2 {s})))", "(result_unwrap_err {E})", "k", lambda k, i: k.py(2 * i + 1), (), None),
     "call":     (("clo",), "fn(int) -> int", "(mkcloi {s})", "({E} 7)", "int", lambda k, i: str(100 * (len(_S(i)) + 1) + len(_S(i)) + 7), (), ("temp", "var", "frame")),
 }
 # the holder written as a constructor expression in place (struct / tuple / union literal) instead of a call result
